@@ -366,6 +366,24 @@ def run(facts, rep, ctx):
                     if sh in LOSSY and ("str" in nm or "String" in nm):
                         lossy_hit = True
                         rep.violation(R5, bd.name, "lossy:" + sh, "%s passes the message through `%s`, which loses characters (e.g. a trailing newline or carriage return): get(set(x)) != x" % (who, nm), "%s:%s" % (b2.file, t["line"]))
+        # a hand-written join: the separator goes between pieces, i.e. before every piece but the first -- decided by
+        # the piece's index, not by whether anything has been produced yet (empty leading pieces produce nothing)
+        from flow import dom_guards as _dg, cond_truth as _ct
+        for bd, who in ((gb, "get_message"), (sb, "set_message")):
+            for bb, t in bd.calls():
+                nm = callee_names(t)[1] or ""
+                if nm.rsplit("::", 1)[-1] not in ("push_str", "push") or "String" not in nm or len(t["args"]) != 2:
+                    continue
+                sep = lit(bd.term_of_operand(t["args"][1]))
+                if sep not in ("\\n", "\n"):
+                    continue
+                recv = strip_refs(bd.term_of_operand(t["args"][0]))
+                for (a_, s_, c_) in _dg(bd, bb):
+                    term_ = c_[0]
+                    inner = term_[2] if term_[0] == "un" and term_[1] == "Not" else term_
+                    if inner[0] == "call" and inner[1].rsplit("::", 1)[-1] == "is_empty" and inner[2] and strip_refs(inner[2][0]) == recv:
+                        lossy_hit = True
+                        rep.violation(R5, bd.name, "separator-by-emptiness", "%s joins the pieces of the message with %r, and decides whether a piece is the first by asking whether the output is still empty: after an empty first piece (a message that starts with the separator) it still is, so that separator is dropped and get(set(x)) != x" % (who, sep), "%s:%s" % (bd.file, t["line"]))
         if lossy_hit:
             pass
         elif len(sr) != 1 or len(gr) != 1:
